@@ -335,7 +335,8 @@ func vhC12Load(a []int, twin bool) {
 func vh_C12_roundtrip(a []int) {
 	dsse := a[0] == 1
 	// concrete strings chosen by case split (signatures over symbolic bytes cannot be hex/base64 round-tripped in the engine)
-	name := vConcStr(vPick("name", "plain", "quo\"te", "back\\slash", "new\nline\ttab", "", "caf\u00e9 \u00c0 \u0100", "esc\x1b[0m\x0b\x7f"))
+	name := vConcStr(vPick("name", "plain", "quo\"te", "back\\slash", "new\nline\ttab", "", "caf\u00e9 \u00c0 \u0100", "esc\x1b[0m\x0b\x7f",
+		"crlf\r\nblank\n\nrun\x01\x02\x03", "\n\n", "\x00\x1f\x1f\x00 \x1f"))
 	l := Link{Type: "link", Name: name}
 	switch a[1] {
 	case 1:
